@@ -59,6 +59,7 @@ class Ctx:
             entry["expected_counterexample"] = []
         self.cov["states"] += res.get("states", 0)
         self.cov["transitions"] += res.get("transitions", 0)
+        self.cov["design_level_states"] = self.cov.get("design_level_states", 0) + res.get("states", 0)
         self.cov["models"].append(entry)
         return res
 
@@ -94,6 +95,7 @@ class Ctx:
         self.cov["events_validated"] += sum(len(t["events"]) for t in traces)
         self.cov["states"] += stats["states"]
         self.cov["transitions"] += stats["transitions"]
+        self.cov["trace_validation_states"] = self.cov.get("trace_validation_states", 0) + stats["states"]
         for t in traces[:sample]:
             if len(self.cov["samples"]) < 6:
                 self.cov["samples"].append(compact_trace(t))
@@ -141,6 +143,10 @@ class Ctx:
         if self.level == "model_checking" and (cov["states"] < 1 or cov["transitions"] < 1):
             raise MachineryError("no states explored")
         cov["known_findings_reported"] = list(self.known_lines)
+        cov.setdefault("explanation", "states/transitions = TLC states of the design-level toy models (design_level_states, per model in "
+                       "'models') plus the states of the trace specification consumed while validating recorded executions of the "
+                       "real code (trace_validation_states: one per validated event plus bookkeeping); events_validated counts "
+                       "public calls / table events of the implementation checked against the specification")
         write_evidence(self.pid, self.level, cov, self.assumptions, time.time() - self.t0,
                        len(self.violations), tier=self.tier)
         for line in self.known_lines:
